@@ -16,6 +16,8 @@ path that selects n.  Not decided: that cbor_serialize fails rather than truncat
 """
 from . import hirq as H
 from . import respser as R
+from . import oblig_rules as OR
+from .oblig_mono import node_at
 
 LEVEL = "other"
 
@@ -115,3 +117,25 @@ def run(ctx):
     for cfg, F in ctx.facts.items():
         n = check(ctx, F, cfg)
         ctx.floor("enumerated paths", n, 3, cfg=cfg)
+        # "never panics": obligations in every /repo instance reachable from Response::serialize (monomorphic call graph,
+        # instantiated at N = 1024 only to resolve callees; the MIR of serialize::<N> is the same for every N)
+        m, _ = R.build(F)
+
+        def local_rules(inst, ev, kind, m=m, F=F):
+            if inst["def"] != R.FN or m is None:
+                return None, None
+            nodes = node_at(m.fn, ev["sp"])
+            if kind == "call:core::option::Option::<T>::unwrap" and m.split_unwrap is not None and any(x is m.split_unwrap for x in nodes):
+                # every path grows the buffer to capacity before the split (clause grow-first above)
+                return "B-pre", "split_first_mut() after resize_default(capacity()) is Some for N >= 1 (the property's precondition)"
+            if kind == "assert:overflow:Add":
+                for x in nodes:
+                    if x.get("k") == "binary" and x["op"] == "+":
+                        l, r = m.A.subst(x["l"]), m.A.subst(x["r"])
+                        for a, b in ((l, r), (r, l)):
+                            if H.lit(b) == 1 and a.get("k") == "mcall" and a.get("callee") == "core::slice::<impl [T]>::len":
+                                return "B-len1", "slice.len() + 1: a slice length is at most isize::MAX"
+            return None, None
+
+        nloc = OR.check_root(ctx, F, cfg, "C17", "ctap2::Response::serialize@usize:1024", local_rules, what="while encoding a response")
+        ctx.floor("/repo instances reachable from Response::serialize", nloc, 25, cfg=cfg)
